@@ -11,6 +11,12 @@ plus the naturally failing saves (results that cannot be pickled / JSON-encoded 
 after several frames were already written). After each: real `is_cached`, `cached_tasks`, a second
 `run_tasks` from a fresh Lab; compared with the Lean model's observation (`SAVE … kind=fault`), and
 checked directly against the property (monitor).
+
+Alongside (`external_uncache`): the entry whose save is in question can also vanish because ANOTHER actor on the same
+storage removes it during the call - the clean-up of somebody else's failed overwrite does exactly that. A few cases of the
+DAG harness (dagcase.gen_extdel_case: a task cached when the run was planned loses its entry before it is submitted / after
+it was loaded) are run through the DAG machinery; monitor only: afterwards no entry is reported by is_cached, or breaks
+cached_tasks, that cannot be loaded.
 """
 import json
 import logging
@@ -365,6 +371,26 @@ def shrink_pref(violations):
     return sorted(violations, key=key)
 
 
+def external_uncache(ctx, box):
+    """the external-uncache cases of the DAG harness, C12's share of their monitors; fills box"""
+    try:
+        import dagrun
+        from props import dagprop
+        n = 24 if ctx['tier'] == 'quick' else 400
+        rep = dagrun.explore(seed=ctx['seed'], n_cases=n, max_tids=5, workers=4 if ctx['tier'] == 'quick' else 12, mode='extdel',
+                             timeout=60 if ctx['tier'] == 'quick' else 600)
+        viol = [v for v in rep['violations'] if v['property'] == 'C12']
+        out = []
+        if viol:
+            small = dagprop.shrink(dagrun.normalise(viol[0]['case']), 'C12', budget=25)
+            obs, _, vs = dagprop.run_single(small)
+            out.append(dict(what=(vs.get('C12') or [viol[0]['what']])[0], replay=dict(kind='dag', case=small, real=obs)))
+        box.update(evaluations=rep['evaluations'], violations=out, errors=rep['worker_errors'],
+                   dist={k: v for k, v in rep['dist'].items() if k.startswith('external_uncache')})
+    except Exception as e:      # the DAG machinery itself failed: reported as an infrastructure error by run()
+        box.update(evaluations=0, violations=[], errors=[f'external-uncache cases: {type(e).__name__}: {e}'], dist={})
+
+
 def run(ctx):
     import savetasks as T
     tier = ctx['tier']
@@ -372,6 +398,12 @@ def run(ctx):
         rp = json.load(open(ctx['replay']))
         rep = rp.get('replay') or {}
         case = rep.get('case')
+        if rep.get('kind') == 'dag':
+            import dagrun
+            from props import dagprop
+            obs, _, vs = dagprop.run_single(dagrun.normalise(case))
+            return dict(evaluations=1, distinct_nontrivial=1, rule='replay of one external-uncache case of the DAG harness', samples=[obs[:500]],
+                        violations=[dict(what=w, replay=rep) for w in vs.get('C12', [])], disagreements=[])
         if rep.get('kind') == 'main-script':
             from props import c12x
             rs = c12x.run_scripts((rep['backend'],))
@@ -398,8 +430,13 @@ def run(ctx):
     sbox = {}
     sth = threading.Thread(target=lambda: sbox.update(recs=c12x.run_scripts()))
     sth.start()
+    xbox = {}
+    xth = threading.Thread(target=external_uncache, args=(ctx, xbox))
+    xth.start()
     recs, errors = run_parallel(cases, workers=13, timeout=50 if tier == 'quick' else 600)
     sth.join()
+    xth.join()
+    errors += xbox.get('errors', ['external-uncache cases did not finish'])
     errors += [r['infra'] for r in sbox.get('recs', []) if r.get('infra')] + ([] if 'recs' in sbox else ['script scenario did not finish'])
     infra = [r for r in recs if r.get('infra')]
     if errors or infra or bad_dry:
@@ -431,7 +468,7 @@ def run(ctx):
         v2, _ = evaluate([r for r in recs2 if not r.get('infra')], dry_of)
         viol += v2
         recs += recs2
-    viol = shrink_pref(viol)
+    viol = shrink_pref(viol) + xbox['violations']
     struck = [r for r in recs if r.get('struck') is not False]
     dist = dict(
         cases=len(recs), struck=len(struck), main_script_scenarios=[r['backend'] for r in sbox['recs']],
@@ -445,13 +482,14 @@ def run(ctx):
         write_counts={f'{k[0]}/{k[1]}/{k[2]}': (v['n1'], v['m1'], v['lines']) for k, v in dry_of.items()},
         results={i: d for i, (d, _) in {**T.GOOD, **T.BAD}.items()},
         handler_ran=sum(1 for r in struck if r.get('deleted')),
+        **xbox['dist'],
         wall_s=round(time.time() - t0, 1),
     )
     for r in struck:
         dist['observations'][r.get('real', '?')] = dist['observations'].get(r.get('real', '?'), 0) + 1
     nontrivial = len({json.dumps(r['case'], sort_keys=True) for r in struck if r.get('deleted') or r['case']['inj'] is None})
     return dict(
-        evaluations=len(struck), distinct_nontrivial=nontrivial,
+        evaluations=len(struck) + xbox['evaluations'], distinct_nontrivial=nontrivial,
         rule='enumerated single-fault injection points (storage operation / write call / executed line of cache.py+storage.py inside BaseCache.save, or a result the encoder rejects) x result x cache format x first/overwrite; non-trivial = the fault struck after the save had entered its protected region, i.e. the handler had something to clean up (storage.delete ran)',
         samples=[dict(case=r['case'], real=r.get('real'), model=r.get('model')) for r in struck[:1] + struck[len(struck) // 2:len(struck) // 2 + 2]],
         violations=viol[:20], disagreements=dis[:10], distribution=dist,
